@@ -93,7 +93,8 @@ def storeO (s : SetO) : List SetO → List SetO
 
 /-- the test of `discardShards` (negated: the set is kept) -/
 def keeps (n : Nat) (newest id : BitVec 32) : Bool :=
-  !(decide (itimediff (newest * u32 n) (id * u32 n) > (maxShardSets * n : Nat)))
+  !(decide (itimediff (newest * u32 n) (id * u32 n) > (maxShardSets * n : Nat)) ||
+    decide (itimediff (newest * u32 n) (id * u32 n) < 0))
 
 structure SetsG where
   sets : List SetO
@@ -114,13 +115,23 @@ def retuneChanges (dec : Decoder) : Bool :=
           dec.tune.findPeriod true + dec.tune.findPeriod false < 256 ∧
           (dec.tune.findPeriod true ≠ dec.d ∨ dec.tune.findPeriod false ≠ dec.p))
 
+/-- `newestShardId` after a packet of group `shardId` has been stored: `if len(dec.shardSet) == 0 {
+newestShardId = shardId }` (repair of D13: `empty` = no shard set existed), then the `_itimediff` test -/
+def newestAfter (n : Nat) (empty : Bool) (shardId cur : BitVec 32) : BitVec 32 :=
+  if itimediff (shardId * u32 n) ((if empty then shardId else cur) * u32 n) > 0 then shardId
+  else (if empty then shardId else cur)
+
 structure DecOutO where
   o         : DecO
   recovered : List Fec.Bytes
   rbufs     : List Nat       -- the buffers behind `recovered`: they now belong to the caller
   panic     : Bool
 
-/-- `decode(in)` -/
+/-- `decode(in)`.  Next to a `panic` flag of the model (an input longer than a pool buffer reaching
+`Get()[:len(in)]`, the re-slice of the recovery block beyond a buffer's capacity — both excluded by the
+callers, Props/C05Fec) the state and the log are those of the un-interrupted computation; the real
+code stops earlier, after a prefix of these events (the `Get`s come first), and a prefix of a
+disciplined log is disciplined (`C15_disciplined_prefix`). -/
 def decodeO (C : CodecNew) (o : DecO) (inp : Fec.Bytes) : DecOutO :=
   let r := o.dec.decode C inp
   if inp.length < fecHeaderSize then ⟨o, [], [], true⟩ else
@@ -137,15 +148,14 @@ def decodeO (C : CodecNew) (o : DecO) (inp : Fec.Bytes) : DecOutO :=
     else
       let g1 := o.gh.get                                         -- pkt := Get()[:len(in)]; copy(pkt, in)
       let pkts := set.pkts ++ [{ p := inp, buf := o.gh.next }]
-      let newest :=
-        if itimediff (shardId * u32 dec1.n) (dec1.newest * u32 dec1.n) > 0 then shardId else dec1.newest
+      let newest := newestAfter dec1.n o.sets.isEmpty shardId dec1.newest
       if pkts.length ≥ dec1.d then
         let plain := pkts.map (·.p)
         let sets1 := storeO { id := shardId, pkts := [] } o.sets    -- all packets popped, the set stays
         let g2 := usePkts pkts g1                                   -- seqid/flag/len of every popped packet
         if (plain.filter fun q => flag q == typeData).length = dec1.d then
           let d := discardO dec1.n newest sets1 (putPkts pkts g2)
-          ⟨{ dec := r.st, sets := d.sets, gh := d.g }, r.recovered, [], false⟩
+          ⟨{ dec := r.st, sets := d.sets, gh := d.g }, r.recovered, [], r.panic⟩
         else
           let shards := gather dec1.n (maxBody plain) plain
           let g3 := usePkts pkts g2                                 -- padding, ReconstructData
@@ -153,13 +163,13 @@ def decodeO (C : CodecNew) (o : DecO) (inp : Fec.Bytes) : DecOutO :=
           match dec1.codec.recon shards with
           | some _ =>
             let d := discardO dec1.n newest sets1 (putPkts pkts nb.g)
-            ⟨{ dec := r.st, sets := d.sets, gh := d.g }, r.recovered, nb.ids, false⟩
+            ⟨{ dec := r.st, sets := d.sets, gh := d.g }, r.recovered, nb.ids, r.panic⟩
           | none =>
             let d := discardO dec1.n newest sets1 (putPkts pkts (putIds nb.ids nb.g))
-            ⟨{ dec := r.st, sets := d.sets, gh := d.g }, r.recovered, [], false⟩
+            ⟨{ dec := r.st, sets := d.sets, gh := d.g }, r.recovered, [], r.panic⟩
       else
         let d := discardO dec1.n newest (storeO { id := shardId, pkts := pkts } o.sets) g1
-        ⟨{ dec := r.st, sets := d.sets, gh := d.g }, r.recovered, [], false⟩
+        ⟨{ dec := r.st, sets := d.sets, gh := d.g }, r.recovered, [], r.panic⟩
 
 /-- `decode` followed by what its caller does with the recovered buffers (one `kcpInput`) -/
 def decodeRel (C : CodecNew) (o : DecO) (inp : Fec.Bytes) : DecO :=
